@@ -90,7 +90,10 @@
 //! ```
 
 use std::collections::HashMap;
+#[cfg(not(kahflane_turdb_verif_sched))]
 use std::sync::atomic::{AtomicBool, AtomicU32, Ordering};
+#[cfg(kahflane_turdb_verif_sched)]
+use shuttle::sync::atomic::{AtomicBool, AtomicU32, Ordering};
 use std::sync::Arc;
 
 use eyre::{ensure, Result};
